@@ -290,10 +290,9 @@ def _sign_changes(seq, t):
     return sum(1 for a, b in zip(s, s[1:]) if a != b)
 
 
-def real_roots_01(p, eps=Fraction(1, 10**30)):
-    """isolating intervals of the distinct real roots of p in the half-open interval [0, 1); returns list of
-    (lo, hi) with hi - lo <= eps, or None when p vanishes identically / has a root exactly at an end point
-    or a multiple root (the caller treats this as 'degenerate sample')."""
+def isolate_roots_01(p):
+    """isolating intervals (lo, hi, sturm sequence) of the distinct real roots of p in [0, 1); None when p vanishes
+    identically, has a root exactly at an end point, or a multiple root (degenerate sample for the caller)."""
     p = _trim(p)
     if len(p) == 1:
         return [] if p[0] != 0 else None
@@ -309,17 +308,42 @@ def real_roots_01(p, eps=Fraction(1, 10**30)):
         n = _sign_changes(seq, lo) - _sign_changes(seq, hi)
         if n == 0:
             continue
-        if n == 1 and hi - lo <= eps:
+        if n == 1:
             out.append((lo, hi))
             continue
         mid = (lo + hi) / 2
         if _peval(p, mid) == 0:
-            mid = (lo + mid) / 2 + Fraction(1, 10**9) * (hi - lo)
+            mid = mid + (hi - lo) * Fraction(1, 1024)
             if _peval(p, mid) == 0:
                 return None
         stack.append((lo, mid))
         stack.append((mid, hi))
     return sorted(out)
+
+
+def real_roots_01(p, eps=Fraction(1, 10**12)):
+    iso = isolate_roots_01(p)
+    if iso is None:
+        return None
+    out = []
+    for lo, hi in iso:
+        lo, hi = _refine(_trim(p), lo, hi, eps)
+        out.append((lo, hi))
+    return out
+
+
+def _refine(p, lo, hi, eps):
+    slo = _peval(p, lo) > 0
+    while hi - lo > eps:
+        mid = (lo + hi) / 2
+        v = _peval(p, mid)
+        if v == 0:
+            return mid, mid
+        if (v > 0) == slo:
+            lo = mid
+        else:
+            hi = mid
+    return lo, hi
 
 
 def winding_number(curve, p, margin=Fraction(1, 10**7)):
@@ -342,22 +366,41 @@ def winding_number(curve, p, margin=Fraction(1, 10**7)):
             if x > px:
                 w += 1 if y1 > y0 else -1
             continue
-        xs = _bern_to_mono([c[0] for c in ctrl])
-        ys = _bern_to_mono([c[1] for c in ctrl])
+        cys = [c[1] for c in ctrl]
+        cxs = [c[0] for c in ctrl]
+        if py > max(cys) or py < min(cys) or px >= max(cxs):
+            if py in (cys[0], cys[-1]):
+                return None
+            continue  # convex hull: no crossing of the ray with this segment
+        xs = _bern_to_mono(cxs)
+        ys = _bern_to_mono(cys)
         q = list(ys)
         q[0] -= py
-        roots = real_roots_01(q)
-        if roots is None:
+        q = _trim(q)
+        iso = isolate_roots_01(q)
+        if iso is None:
             return None
         dy = _pder(ys)
-        for lo, hi in roots:
-            t = (lo + hi) / 2
-            x = _peval(xs, t)
-            if abs(x - px) <= margin:
-                return None
-            if x > px:
+        for lo, hi in iso:
+            # refine until the side of x(t) - px is decided on the whole isolating interval
+            width = Fraction(1, 2**20)
+            while True:
+                lo, hi = _refine(q, lo, hi, width)
+                xa, xb = _peval(xs, lo), _peval(xs, hi)
+                # x is monotone on tiny intervals up to O(width): decide with a safety margin
+                if min(xa, xb) - px > margin and abs(xa - xb) < margin:
+                    side = 1
+                    break
+                if px - max(xa, xb) > margin and abs(xa - xb) < margin:
+                    side = -1
+                    break
+                if width < Fraction(1, 2**70):
+                    return None
+                width = width / 2**16
+            if side > 0:
+                t = (lo + hi) / 2
                 d = _peval(dy, t)
-                if d == 0:
+                if abs(d) < Fraction(1, 10**9):
                     return None
                 w += 1 if d > 0 else -1
     return w
